@@ -12,7 +12,10 @@ RULE = ("EXHAUSTIVE over the mass table of /repo: for every tolerance in {0.01, 
         "load_lmpdat (data text with and without label comments, partial comments, several types, default and explicit "
         "guess_atol; also data texts with 10…30 atom types, every type used, atoms in shuffled type order) and the "
         "save_lmpdat -> load_lmpdat cycle for every element of the table (singly, in random groups, in structures with "
-        "12…40 types and with all 117 elements at once); every keyword of both entry points at default / edge / "
+        "12…40 types and with all 117 elements at once), and for structures ASSEMBLED from pieces that bring their own atom "
+        "types of differing masses (extend with automatic type extension, extend_types + extend(offsets), two extensions, "
+        "replace_pattern_in_structure with a replacement introducing new elements): per-atom "
+        "elements before writing vs after reading; every keyword of both entry points at default / edge / "
         "non-default values (max_delta / guess_atol = 0, 0.0, numpy 0.0, 1e-9, negative, 1, 1e6, 1e300; positional and keyword "
         "spellings; atom_format full / atomic; Atoms.load(..., filetype='lmpdat', **kw)); SEQUENCES of calls in one process "
         "with the same masses and different tolerances (large first, small first, back again; mixed entry points), each "
@@ -214,6 +217,76 @@ def real_roundtrip(elements):
                     "atom_elements": [str(s) for s in b.elements], "text": text}
     except Exception as e:  # noqa
         return _exc(e)
+
+
+def real_assembled(rec):
+    """a structure ASSEMBLED from pieces that bring their own atom types (extend with automatic type extension,
+    extend_types + extend(offsets=…), two extensions in a row, pattern replacement with a replacement that introduces new
+    elements) -> save_lmpdat -> load_lmpdat.  Returns the per-atom elements before writing and after reading."""
+    import numpy as np
+    from mofun import Atoms, replace_pattern_in_structure
+
+    def piece(els, origin):
+        return Atoms(elements=list(els), positions=[[origin + 5.0 * i, origin, origin + 0.5 * i] for i in range(len(els))])
+    try:
+        with core.quiet():
+            mode, A, B, C = rec["mode"], rec["A"], rec["B"], rec.get("C", [])
+            if mode == "extend":
+                a = piece(A, 0.0)
+                a.extend(piece(B, 100.0))
+            elif mode == "extend_types":
+                a, b = piece(A, 0.0), piece(B, 100.0)
+                offsets = a.extend_types(b)
+                a.extend(b, offsets=offsets)
+            elif mode == "extend-twice":
+                a = piece(A, 0.0)
+                a.extend(piece(B, 100.0))
+                a.extend(piece(C, 200.0))
+            else:   # replace: the pair A[0]-A[1] (1.1 apart) becomes A[0]-B[0](-B[1]…); A[2:] are bystanders 5 apart
+                pos = [[2.0, 2.0, 2.0], [3.1, 2.0, 2.0]] + [[8.0 + 5.0 * (i % 4), 8.0 + 5.0 * (i // 4), 8.0] for i in range(len(A) - 2)]
+                structure = Atoms(elements=list(A), positions=pos, cell=40.0 * np.identity(3))
+                search = Atoms(elements=list(A[:2]), positions=[[0.0, 0.0, 0.0], [1.1, 0.0, 0.0]])
+                rpos = [[0.0, 0.0, 0.0], [1.35, 0.0, 0.0], [0.0, 1.2, 0.0], [0.0, 0.0, 1.25]]
+                repl = Atoms(elements=[A[0]] + list(B), positions=rpos[:1 + len(B)])
+                a = replace_pattern_in_structure(structure, search, repl)
+    except Exception as e:  # noqa  (the assembly itself failed: C04 / C11 territory, counted and skipped here)
+        return {"skip": "assembly raised " + type(e).__name__}
+    try:
+        with core.quiet():
+            before = [str(e) for e in a.elements]
+            f = io.StringIO()
+            a.save_lmpdat(f)
+            text = f.getvalue()
+            b = Atoms.load_lmpdat(io.StringIO(text))
+            return {"ok": {"elements": [str(e) for e in b.atom_type_elements], "labels": [str(e) for e in b.atom_type_labels]},
+                    "before": before, "after": [str(e) for e in b.elements], "text": text}
+    except Exception as e:  # noqa
+        return _exc(e)
+
+
+def oracle_assembled(T, sep, rec, r):
+    if "skip" in r:
+        return None
+    if "ok" not in r:
+        return "assembling / write / read raised %s" % r.get("err")
+    before, after = r["before"], r["after"]
+    want = sorted(rec["A"] + rec["B"] + rec.get("C", [])) if rec["mode"] != "replace" else sorted([rec["A"][0]] + rec["B"] + rec["A"][2:])
+    if sorted(before) != want:
+        return None      # the assembly itself went wrong: not this property's business (C04 / C11)
+    if len(after) != len(before):
+        return "%d atoms written, %d read back" % (len(before), len(after))
+    for i, (e, g) in enumerate(zip(before, after)):
+        if e in sep and g != e:
+            return ("atom %d: element %s (mass distinguishable from all others) came back as %s after the write/read cycle "
+                    "(written %s, read %s)" % (i, e, g, before, after))
+    ms, cs = masses_section(r["text"])
+    if len(ms) != len(r["ok"]["elements"]):
+        return "%d Masses lines, %d types read" % (len(ms), len(r["ok"]["elements"]))
+    for k, (m, g) in enumerate(zip(ms, r["ok"]["elements"])):
+        bad = oracle_one(T, fr(m), fr(0.1), g)
+        if bad:
+            return "type %d: %s" % (k + 1, bad)
+    return None
 
 
 def tol_value(call):
@@ -582,6 +655,37 @@ def run(ctx, oracle_only=False):
             impls.append({"ok": r["ok"]})
             skip.append(any(ambiguous(T, fr(m), fr(0.1)) for m in ms))
 
+    # 4b. the same cycle for structures ASSEMBLED from pieces with their own types (extend / extend_types / replace)
+    modes = ["extend", "extend_types", "extend-twice", "replace"]
+    for k in range(ctx.n(80, 800)):
+        mode = modes[k % len(modes)]
+        pool = rng.sample(syms, 12)
+        nA = rng.randint(2 if mode != "replace" else 3, 5)
+        A = [pool[i] for i in range(nA)]
+        if mode != "replace" and rng.random() < 0.5:
+            A.append(rng.choice(A))                       # a repeated element: fewer types than atoms
+        nB = rng.randint(1, 3)
+        B = pool[5:5 + nB] if rng.random() < 0.8 else [rng.choice(A)] + pool[5:5 + nB - 1]   # sometimes shares an element
+        C = pool[8:8 + rng.randint(1, 3)] if mode == "extend-twice" else []
+        if k == 0:
+            mode, A, B, C = "extend", ["C", "H", "H"], ["Zr", "O"], []
+        if k == 3:
+            mode, A, B, C = "replace", ["C", "H", "N"], ["F"], []
+        rec = {"op": "assembled", "mode": mode, "A": list(A), "B": list(B), "C": list(C)}
+        r = real_assembled(rec)
+        ctx.case(rec, nontrivial=True)
+        ctx.count("assembled:" + mode + (":assembly-failed" if "skip" in r else ""))
+        bad = oracle_assembled(T, sep, rec, r)
+        if bad:
+            ctx.fail(bad, rec, observed={k2: v for k2, v in r.items() if k2 != "text"},
+                     required="every atom whose element has a mass at least 0.2 away from all other table masses has the same element after save_lmpdat -> load_lmpdat")
+        elif "ok" in r:
+            ms, cs = masses_section(r["text"])
+            ops.append({"op": "load_elements", "masses": [core.q(m) for m in ms], "tol": core.q(0.1), "comments": cs,
+                        "kind": "assembled"})
+            impls.append({"ok": r["ok"]})
+            skip.append(any(ambiguous(T, fr(m), fr(0.1)) for m in ms))
+
     bad = table_check(T)
     ctx.case({"op": "table-check", "stage": "end", "constructs": []}, nontrivial=False)
     if bad:
@@ -635,6 +739,8 @@ def search(ctx):
 def replay(ctx, rec):
     inp = rec["input"]
     T = table()
+    if inp["op"] == "assembled":
+        return oracle_assembled(T, separated(T, Fraction(1, 10)), inp, real_assembled(inp)) is None
     if inp["op"] == "roundtrip":
         return oracle_roundtrip(T, separated(T, Fraction(1, 10)), inp["elements"], real_roundtrip(inp["elements"])) is None
     if inp["op"] in ("table-check", "construct"):
